@@ -284,13 +284,16 @@ func (s *Sched) decide(c int, kind string, site uint32, boundary bool) int {
 		}
 	} else {
 		sw := must
+		if !sw && s.switches >= s.switchCap() {
+			s.burstLeft = 0
+		}
 		if !sw && s.burstLeft > 0 {
 			s.burstLeft--
 			if s.burstLeft == 0 {
 				sw = true
 			}
 		}
-		if !sw {
+		if !sw && s.switches < s.switchCap() {
 			den := s.pInDen
 			if s.pSyncDen > 0 {
 				den = 0
@@ -600,8 +603,12 @@ func (s *Sched) SetupRandom(r *RNG, n int, expectYields uint64, contention bool)
 			s.burstDen = 1 + r.Intn(4)
 		}
 		// (long runs - large tensors - get proportionally rarer switches: the tape holds 2^17 of them)
-		if expectYields/uint64(s.pInDen) > 30000 {
-			s.pInDen = int(expectYields/30000) + 1
+		limit := uint64(30000)
+		if bigMode {
+			limit = 3000 // every switch of such a run also pays for a look at large shared tensors
+		}
+		if expectYields/uint64(s.pInDen) > limit {
+			s.pInDen = int(expectYields/limit) + 1
 		}
 		return "random"
 	}
@@ -627,4 +634,15 @@ func (s *Sched) progress() {
 	for i := range s.isBlocked {
 		s.isBlocked[i] = false
 	}
+}
+
+// switchCap: voluntary switches stop after this many (the tape holds 2^17; runs over large tensors pay for a look at
+// large shared tensors at every switch). Forced switches - a blocked or finished client - are not limited.
+//
+//go:norace
+func (s *Sched) switchCap() uint64 {
+	if bigMode {
+		return 8000
+	}
+	return 60000
 }
